@@ -560,6 +560,12 @@ where
                 let r = oom(self.get(tok[2])?.restrict(&vars))?;
                 Ok(put(self, tok[1], r))
             }
+            "RESTRICTH" => {
+                // RESTRICTH dst a c : the literal cube is the function of handle c (kept across VARS / GC / ORDER)
+                let c = self.get(tok[3])?.clone();
+                let r = oom(self.get(tok[2])?.restrict(&c))?;
+                Ok(put(self, tok[1], r))
+            }
             "MKSUBST" => {
                 // MKSUBST sid v=hK v=hK ...
                 let sid: usize = tok[1].parse().unwrap();
